@@ -457,6 +457,10 @@ def main(tier, seed):
         for shape in shapes:
             J.append(('sym', (disc, shape, None, 'all')))
         if kind_of(disc) == 'field':
+            # long marks: field events also admit 3-6 digits (PAT_LONG_SECONDS); the optional point lets 7 through
+            for L in ((3,), (6,), (7,)) if tier == 'quick' else ((3,), (4,), (5,), (6,), (7,), (8,)):
+                for dec in (None, ('.', 2), ('.', 1)):
+                    J.append(('sym', (disc, (L, dec, '', '.'), None, 'all')))
             # the record is the one of the caller's gender, in any letter case; other texts mean the overall record
             for g in (['M', 'f', 'F'] if tier == 'quick' else ['m', 'M', 'f', 'F', 'x', 'ALL']):
                 for shape in shapes:
@@ -468,7 +472,7 @@ def main(tier, seed):
             for shape in shapes[2::7]:
                 J.append(('sym', (disc, shape, 0, 'all')))
                 J.append(('sym', (disc, shape, 3, 'all')))
-        elif kind_of(disc) == 'timed' and disc in ('100', '800', 'MAR'):
+        elif kind_of(disc) == 'timed' and disc in ('100', '800', 'MAR', 'XC'):
             # with a precision option the text goes through format_seconds_as_time (callee contract): cheap shapes only
             for shape in [((2,), ('.', 2), '', '.'), ((1,), ('.', 3), '', '.'), ((2,), ('.', 3), '', '.'), ((1, 2), None, ':', '.'), ((1, 2, 2), None, ':', '.')]:
                 J.append(('sym', (disc, shape, 0, 'all')))
